@@ -2,6 +2,7 @@ package chainsim
 
 import (
 	"fmt"
+	"strings"
 
 	"github.com/ethereum/go-ethereum/common"
 	"github.com/ethereum/go-ethereum/core/rawdb"
@@ -73,6 +74,7 @@ func (w *world) apply(op Op) (r resolved, v *simcore.Violation) {
 	bc := w.bc
 	headBefore := bc.CurrentBlock().Hash()
 	hdrBefore := bc.CurrentHeader().Hash()
+	headerAhead := bc.CurrentHeader().Number.Uint64() > bc.CurrentBlock().Number.Uint64()
 	rebase := false
 	preKnown := map[int]bool{} // insert: blocks of the segment that were stored before the call
 	note := func(format string, a ...any) {
@@ -118,6 +120,13 @@ func (w *world) apply(op Op) (r resolved, v *simcore.Violation) {
 		// optional length cap: import a side chain only partially
 		if !refuse && op.C%3 == 1 && len(seg) > 1 {
 			seg = seg[:1+op.C%len(seg)]
+		}
+		if last := seg[len(seg)-1]; !refuse && !w.finalOK(last.idx) {
+			// the segment ends below the finalized / frozen block: importing it would make
+			// the chain drop finalized blocks
+			r.skipped = true
+			note("insert up to node %d: would reorg below the finalized block", last.idx)
+			break
 		}
 		for _, n := range seg {
 			r.blocks = append(r.blocks, n.idx)
@@ -167,8 +176,11 @@ func (w *world) apply(op Op) (r resolved, v *simcore.Violation) {
 		} else if err != nil {
 			// not part of C38 (the invariants below must hold regardless); C39 judges re-imports
 			w.res.Probe("insert-error-on-known-parent")
-		} else if !w.known(seg[len(seg)-1]) {
+		} else if last := seg[len(seg)-1]; !w.known(last) || !bc.HasState(last.block.Root()) || !rawdb.HasReceipts(w.db, last.block.Hash(), last.depth) {
+			// InsertChain returned nil without importing the whole batch (insertSideChain
+			// stops at the first block that is not "pruned ancestor" and drops the rest)
 			w.res.Probe("insert-nil-but-not-imported")
+			w.silentDrop = true
 		}
 	case "setcanon":
 		var cands []int
@@ -307,6 +319,7 @@ func (w *world) apply(op Op) (r resolved, v *simcore.Violation) {
 		}
 	case "reopen":
 		note("clean stop + reopen")
+		journalFailed.Store("")
 		if v = guard("Stop", func() *simcore.Violation { w.stopChain(); return nil }); v != nil {
 			return r, v
 		}
@@ -319,11 +332,20 @@ func (w *world) apply(op Op) (r resolved, v *simcore.Violation) {
 			return r, v
 		}
 		bc = w.bc
+		var rv *simcore.Violation
 		if cur := bc.CurrentBlock(); cur.Hash() != headBefore {
-			return r, viol("restart-head-changed", "CurrentBlock was #%x before a clean Stop and is #%d %x after reopening", headBefore[:4], cur.Number, cur.Hash().Bytes()[:4])
+			rv = viol("restart-head-changed", "CurrentBlock was %x before a clean Stop and is #%d %x after reopening", headBefore[:4], cur.Number, cur.Hash().Bytes()[:4])
+		} else if cur := bc.CurrentHeader(); cur.Hash() != hdrBefore {
+			rv = viol("restart-head-changed", "CurrentHeader was %x before a clean Stop and is #%d %x after reopening", hdrBefore[:4], cur.Number, cur.Hash().Bytes()[:4])
 		}
-		if cur := bc.CurrentHeader(); cur.Hash() != hdrBefore {
-			return r, viol("restart-head-changed", "CurrentHeader was %x before a clean Stop and is #%d %x after reopening", hdrBefore[:4], cur.Number, cur.Hash().Bytes()[:4])
+		if rv != nil {
+			if jf, _ := journalFailed.Load().(string); jf == "layer stale" && w.knobs.Scheme == rawdb.PathScheme {
+				// Stop could not write the pathdb journal because the layer tree holds a
+				// dangling (stale) sibling layer: all in-memory states are lost
+				rv.Key = "restart-head-changed:pathdb-journal-failed-layer-stale"
+				rv.Msg += " (Stop logged: Failed to journal in-memory trie nodes err=layer stale)"
+			}
+			return r, rv
 		}
 		w.res.Probe("restart")
 		rebase = true
@@ -337,6 +359,23 @@ func (w *world) apply(op Op) (r resolved, v *simcore.Violation) {
 		switch {
 		case v.Oracle == "head-state-missing" && op.Kind == "insert" && len(r.blocks) > 0 && preKnown[r.blocks[0]] && w.knobs.Scheme == rawdb.PathScheme && w.bc.CurrentBlock().Hash() == headBefore:
 			v.Key = "head-state-missing:reinsert-known-canonical-block-rolls-state-back"
+		case v.Oracle == "canon-above-head" && op.Kind == "insert" && len(r.blocks) > 0 && preKnown[r.blocks[0]] && w.belowFrozen():
+			// InsertChain of already-canonical blocks whose state is pruned re-executes their
+			// ancestors with setHead and leaves the head at the last re-executed block: below
+			// blocks that are already frozen (and possibly finalized)
+			v.Key = "canon-above-head:reimport-of-pruned-canonical-blocks-rewinds-head-below-frozen"
+		case v.Oracle == "canon-above-head" && headerAhead && op.Kind != "sethead":
+			// the header head was above the block head (SetHead / repair left it there);
+			// writeHeadBlock then moves the header head down without touching the index above
+			v.Key = "canon-above-head:header-head-was-ahead-of-block-head"
+		case (v.Oracle == "canon-receipts-missing" || v.Oracle == "logs-never-announced") && w.silentDrop && w.knobs.Scheme == rawdb.HashScheme:
+			// side-chain blocks stored without execution became canonical because a state
+			// with their root was already on disk (left by an earlier commit)
+			v.Key = v.Oracle + ":unexecuted-sidechain-block-canonicalised"
+		case v.Oracle == "head-state-incomplete" && w.knobs.Scheme == rawdb.PathScheme && strings.Contains(v.Msg, "layer stale"):
+			// pathdb keeps diff layers whose parent was flattened away (siblings of the
+			// layer above the new disk layer): HasState says yes, reads fail
+			v.Key = "head-state-incomplete:pathdb-dangling-sibling-layer-stale"
 		case v.Oracle == "logs-never-announced" && op.Kind == "insert" && subset(w.missLogBlocks, preKnown):
 			// every unannounced log belongs to a block that was stored before the call
 			v.Key = "logs-never-announced:known-block-made-head-again"
@@ -378,6 +417,11 @@ func (w *world) apply(op Op) (r resolved, v *simcore.Violation) {
 	w.opsDone++
 	tracef("  op %-8s %s | head #%d node %d, header #%d, events %d", op.Kind, r.desc, cur.Number, w.headNode, w.bc.CurrentHeader().Number, len(evs))
 	return r, nil
+}
+
+func (w *world) belowFrozen() bool {
+	frozen, _ := w.db.Ancients()
+	return w.bc.CurrentHeader().Number.Uint64()+1 < frozen
 }
 
 func subset(xs []int, set map[int]bool) bool {
